@@ -105,7 +105,8 @@ static int32_t traverse_schema_recursive(
 
     /* Group node - recursively process children */
     int32_t next_idx = element_idx + 1;
-    for (int32_t child = 0; child < elem->num_children; child++) {
+    for (int32_t child = 0;
+         child < elem->num_children && next_idx < ctx->num_elements; child++) {
         next_idx = traverse_schema_recursive(ctx, next_idx, this_def, this_rep);
     }
 
@@ -157,7 +158,8 @@ static void compute_levels(
      * We process its children starting at index 1. */
     const parquet_schema_element_t* root = &elements[0];
     int32_t next_idx = 1;
-    for (int32_t child = 0; child < root->num_children; child++) {
+    for (int32_t child = 0;
+         child < root->num_children && next_idx < num_elements; child++) {
         next_idx = traverse_schema_recursive(&ctx, next_idx, 0, 0);
     }
 }
